@@ -202,13 +202,49 @@ func drawMedia(t *rapid.T) *playlist.Media {
 		s.Bitrate = optPtr(t, "bitrate", int31Gen)
 		s.ByteRangeLength, s.ByteRangeStart = byteRangeGen(t, "br")
 		// keys: once a key tag was written it applies to every later segment
-		switch rapid.IntRange(0, 3).Draw(t, "keychange") {
+		switch rapid.IntRange(0, 4).Draw(t, "keychange") {
 		case 0:
 			curKey = keyGen(t)
 		case 1:
 			if curKey != nil {
 				cp := *curKey
 				curKey = &cp // equal content, different pointer
+			}
+		case 2:
+			// a key that differs from the previous one in exactly one attribute
+			if curKey != nil && curKey.Method != playlist.MediaKeyMethodNone {
+				cp := *curKey
+				switch rapid.IntRange(0, 4).Draw(t, "keyfield") {
+				case 0:
+					if cp.IV == "" {
+						cp.IV = rapid.StringMatching(`0x[0-9A-F]{2,32}`).Draw(t, "iv2")
+					} else if rapid.Bool().Draw(t, "dropiv") {
+						cp.IV = ""
+					} else {
+						cp.IV += "0"
+					}
+				case 1:
+					cp.URI += "2"
+				case 2:
+					if cp.KeyFormat == "" {
+						cp.KeyFormat = "identity"
+					} else {
+						cp.KeyFormat = ""
+					}
+				case 3:
+					if cp.KeyFormatVersions == "" {
+						cp.KeyFormatVersions = "1/2"
+					} else {
+						cp.KeyFormatVersions = ""
+					}
+				case 4:
+					if cp.Method == playlist.MediaKeyMethodAES128 {
+						cp.Method = playlist.MediaKeyMethodSampleAES
+					} else {
+						cp.Method = playlist.MediaKeyMethodAES128
+					}
+				}
+				curKey = &cp
 			}
 		}
 		s.Key = curKey
